@@ -122,9 +122,9 @@ def run(ctx):
             ("plain-blockcomments", ctx.budget(60, 2000)), ("plain-onecomment", ctx.budget(40, 1500)),
             ("plain-onelinecomment", ctx.budget(80, 3000))]
     # one `//` comment in every gap between two tokens of every declaration form of prnlib.LC_SNIPPETS: all the gaps
-    # before a closing token or a separator, and (quick tier) a quarter of the others
+    # before a closing token or a separator, and (quick tier) a sixth of the others
     for src, nxt in prnlib.lc_catalogue():
-        if nxt in prnlib.CLOSERS or ctx.tier == "thorough" or rng.chance(1, 4):
+        if nxt in prnlib.CLOSERS or ctx.tier == "thorough" or rng.chance(1, 6):
             cases.append(("lc-position", src.encode(), {}))
     for strat, n in plan:
         for _ in range(n):
@@ -147,7 +147,7 @@ def run(ctx):
                 "lc-position (a catalogue of declaration forms - message literals empty / non-empty / nested / in arrays, array "
                 "literals, compact options with one / several entries, option values of every kind, ranges, type arguments, rpc "
                 "signatures and bodies, paths - with ONE `//` comment in EVERY gap between two adjacent tokens, the declaration "
-                "continuing on the next line: every gap before `;` `,` `]` `}` `>` `)`, in the quick tier a quarter of the others) "
+                "continuing on the next line: every gap before `;` `,` `]` `}` `>` `)`, in the quick tier a sixth of the others) "
                 "and plain-onelinecomment (generated files, a third of the message literals empty, one `//` comment in a gap drawn "
                 "by class: token before x token after, two in three before a closing token or separator); "
                 "each source x each preset (default, legacy) is one evaluation; distinct = distinct (source, preset); non-trivial = "
